@@ -335,6 +335,46 @@ fn ill_typed_case(i: usize) -> CaseResult {
 }
 
 // ------------------------------------------------------------------------------------------------
+// stage: comments and blank lines around a rules text do not decide whether it conforms to the
+// grammar (a malformed file is rejected "as a whole", however long its comment header is)
+
+fn framing_case(u: &mut Choices, sz: Size) -> CaseResult {
+    let doc = gen_doc(u, &sz);
+    let mut rules = print_file(&gen_core_file(u, &doc, sz, true, true));
+    // half of the texts get a malformed tail or a mutation
+    let kind = u.below(4);
+    match kind {
+        0 => {}
+        1 => rules.push_str(*u.pick(&["}\n", "}", ")\n", "]\n", "==\n", "<<\n", "rule\n", "let x\n", "rule r {\n", "%\n", "or\n", "when\n"])),
+        2 => {
+            let other = rules.clone();
+            rules = mutate(u, &rules, &other);
+        }
+        _ => {
+            // a stray token in front
+            rules = format!("{}{}", *u.pick(&["}\n", "]\n", "== 1\n", "or\n"]), rules);
+        }
+    }
+    let n = *u.pick(&[1usize, 2, 5, 20, 60]);
+    let header: String = (0..n).map(|i| if i % 3 == 2 { "\n".to_string() } else { format!("# header line {} of a licence text: rule r {{ }}\n", i) }).collect();
+    let trailer = *u.pick(&["\n# trailing comment\n", "\n\n\n", "\n  # end", "\n# }\n"]);
+    let base = parses(&rules);
+    let mut evals = 1;
+    for (what, text) in [("a comment header", format!("{}{}", header, rules)), ("a trailing comment", format!("{}{}", rules, trailer)), ("both", format!("{}{}{}", header, rules, trailer))] {
+        evals += 1;
+        let p = parses(&text);
+        if p != base {
+            return CaseResult::Fail(Failure {
+                msg: format!("the rules text is {} by the parser, but with {} ({} lines) it is {}", if base { "accepted" } else { "rejected" }, what, n, if p { "accepted" } else { "rejected" }),
+                sig: "c08:comment-framing-changes-acceptance".into(),
+                case: json!({"kind": "framing", "rules": rules, "framed": text}),
+            });
+        }
+    }
+    CaseResult::Pass(Info { nontrivial: !base, key: hash_case(&[&rules]), classes: vec![format!("framing:accepted:{}", base), format!("framing:kind:{}", kind)], evals, sample: None })
+}
+
+// ------------------------------------------------------------------------------------------------
 // stage: raw text (every file role gets arbitrary text)
 
 fn raw_case(u: &mut Choices) -> CaseResult {
@@ -499,6 +539,10 @@ fn process_case(i: usize) -> CaseResult {
 }
 
 pub fn replay(case: &J) -> CaseResult {
+    if case["kind"] == "framing" {
+        let (a, b) = (parses(case["rules"].as_str().unwrap_or("")), parses(case["framed"].as_str().unwrap_or("")));
+        return if a == b { CaseResult::Pass(Info::default()) } else { CaseResult::Fail(Failure { msg: format!("the rules text is accepted={} but framed by comments accepted={}", a, b), sig: "c08:comment-framing-changes-acceptance".into(), case: case.clone() }) };
+    }
     if case["kind"] == "process" {
         let what = case["what"].as_str().unwrap_or("");
         let inputs = process_inputs();
@@ -516,7 +560,7 @@ pub fn replay(case: &J) -> CaseResult {
 
 pub fn run(tier: Tier, seed: u64) -> i32 {
     let spec = EvidenceSpec {
-        rule: "Stage 'ill-typed': 53 parser-accepted but ill-typed program shapes (filters after this / an index / another filter, map-key filters, unary checks on literal variables, function arguments of the wrong type or from empty selections, look-around / back-reference regexes, huge and negative indices, interpolation of non-strings, wrong arity, unknown rules and functions, reversed ranges) x 31 awkward documents (scalars and lists at the root, CloudFormation- and Terraform-plan-shaped documents that are slightly wrong, multi-byte text around byte 100 in malformed data, comment-only, multi-document, tags, aliases, complex keys, overflowing numbers, BOM, tabs). Stage 'mutants': generated wide programs and documents with 1-3 token/byte mutations (truncate, delete, duplicate, swap, splice, dictionary insert, bracket/quote flip, nesting up to 48). Stage 'raw': token soup for every file role. Each input goes through run_checks (verbose and not), parse-tree (json, yaml), validate --payload in six output modes, and for a share also -r/-d files, stdin data, -i, and `test` in three formats (the data text doubling as spec and parameter file): any panic is a violation; a rules text rejected by parse-tree must make validate exit 5 with `line .. column ..` and no evaluated rule. Stage 'process': recursion, 48-64-deep nesting and rulegen / payload edge cases through the real binary: the process must terminate normally. Non-trivial: the rules text is accepted by the parser or within 3 edits of an accepted one; distinct by hash of the texts.".into(),
+        rule: "Stage 'framing': generated rule texts (valid, with a malformed tail, mutated, with a stray leading token) are accepted or rejected by the parser alike with and without a comment header of 1-60 lines and / or trailing comments. Stage 'ill-typed': 53 parser-accepted but ill-typed program shapes (filters after this / an index / another filter, map-key filters, unary checks on literal variables, function arguments of the wrong type or from empty selections, look-around / back-reference regexes, huge and negative indices, interpolation of non-strings, wrong arity, unknown rules and functions, reversed ranges) x 31 awkward documents (scalars and lists at the root, CloudFormation- and Terraform-plan-shaped documents that are slightly wrong, multi-byte text around byte 100 in malformed data, comment-only, multi-document, tags, aliases, complex keys, overflowing numbers, BOM, tabs). Stage 'mutants': generated wide programs and documents with 1-3 token/byte mutations (truncate, delete, duplicate, swap, splice, dictionary insert, bracket/quote flip, nesting up to 48). Stage 'raw': token soup for every file role. Each input goes through run_checks (verbose and not), parse-tree (json, yaml), validate --payload in six output modes, and for a share also -r/-d files, stdin data, -i, and `test` in three formats (the data text doubling as spec and parameter file): any panic is a violation; a rules text rejected by parse-tree must make validate exit 5 with `line .. column ..` and no evaluated rule. Stage 'process': recursion, 48-64-deep nesting and rulegen / payload edge cases through the real binary: the process must terminate normally. Non-trivial: the rules text is accepted by the parser or within 3 edits of an accepted one; distinct by hash of the texts.".into(),
         assumptions: vec!["nesting depth is bounded by 64 as the statement allows".into(), "in-process calls are wrapped in catch_unwind; inputs that may exhaust the stack (recursion, deep nesting) go through the real binary".into()],
     };
     execute("C08", tier, seed, spec, &replay, &|run: &Session| {
@@ -525,6 +569,7 @@ pub fn run(tier: Tier, seed: u64) -> i32 {
         run.run_enum("process", process_inputs().len(), process_case);
         run.run_enum("ill-typed", ILL_TYPED.len() * awkward_docs().len(), ill_typed_case);
         run.run_random("mutants", tier.pick(12_000, 400_000), tier.pick(2000, 3000), |u| mutant_case(u, sz));
+        run.run_random("framing", tier.pick(8_000, 200_000), tier.pick(1400, 2600), |u| framing_case(u, sz));
         run.run_random("raw", tier.pick(6_000, 200_000), 200, raw_case);
         let wd = run.stats.lock().unwrap().discards.get("watchdog").copied().unwrap_or(0);
         if wd > 0 {
